@@ -43,6 +43,8 @@ def scenarios(quick):
               (R(T.blocking(T.chain3(maxseq=2, skip=(1,)))), 'SpecPrompt', 6 if quick else 80, 200),
               # None for one frame, then a set without any of the sink's explicitly subscribed topics
               (R(T.chain3_none_empty(maxseq=4)), 'SpecPrompt', 6 if quick else 80, 250),
+              (R(T.trunk_tee_rejoin(maxseq=4)), 'SpecPrompt', 4 if quick else 60, 400),
+              (R(T.remap_main(maxseq=2)), 'SpecPrompt', 4 if quick else 40, 200),
               (R(T.blocking(T.tee_rejoin2(maxseq=2, skip=()), ['S', 'K'])), 'SpecPrompt', 6 if quick else 80, 250)],
         rand=[(R(T.chain3(maxseq=5, skip=(1, 3))), 8 if quick else 150, 1500),
               (R(T.chain3(maxseq=4, slow=True)), 6 if quick else 100, 1500),
@@ -56,6 +58,10 @@ def scenarios(quick):
               # process() returns an empty dict: it is delivered as an empty set, not dropped
               (R(T.chain3_empty(maxseq=5)), 6 if quick else 100, 1500),
               (R(T.chain3_none_empty(maxseq=9)), 6 if quick else 100, 2000),
+              # ids that skip on the trunk before a tee (a filter returning None), rejoined behind a branch slower than the poll interval
+              (R(T.trunk_tee_rejoin(maxseq=9)), 6 if quick else 100, 4000),
+              # subscriptions written in the short forms 'b>' / '>m'
+              (R(T.remap_main(maxseq=4)), 4 if quick else 60, 1200),
               # blocking applications (MQ.recv() / MQ.send() with timeout = None)
               (R(T.blocking(T.tee_rejoin2(maxseq=4, skip=()))), 6 if quick else 100, 2000),
               (R(T.blocking(T.chain3(maxseq=5, skip=(1, 3)), ['A'])), 6 if quick else 100, 1500)],
